@@ -180,6 +180,37 @@ def rto_documented_posterior(c, iface, param, side, m=4, n=3, form='dense'):
         config.MIN_DIM_SPARSE = old
 
 
+def rto_joint_sqrtprec_prior(c, iface, order):
+    """prior given as JointGaussianSqrtPrec (independent Gaussian factors N(mu_i, (R_i^T R_i)^-1) stacked, the class made for RTO priors), factors of mixed
+    storage and non-zero means: the sampler's normal equations are those of the posterior documented by the factors (bounded stand-in: native)"""
+    import scipy.sparse as sp
+    from cuqi.distribution import JointGaussianSqrtPrec
+    m, n = 4, 3
+    A = c.mat('A', m, n); y = c.vec('y', m); nv = 0.3 + abs(c.real('nv'))
+    R1 = np.asarray(c.mat('R1', 2, n), dtype=float); R2 = np.asarray(c.mat('R2', n, n), dtype=float) + 2 * np.eye(n)
+    mu1 = c.vec('mu1', n); mu2 = c.vec('mu2', n)
+    forms = {'dense,dense': (R1, R2), 'sparse,sparse': (sp.csr_matrix(R1), sp.csr_matrix(R2)), 'sparse,dense': (sp.csr_matrix(R1), R2), 'dense,sparse': (R1, sp.csr_matrix(R2))}[order]
+    try:
+        prior = JointGaussianSqrtPrec([mu1.copy(), mu2.copy()], list(forms), geometry=n); prior.name = 'x'
+        dd = Gaussian(LinearModel(A), nv, geometry=m); dd.name = 'y'
+        target = Posterior(dd.to_likelihood(y), prior)
+        xcur = c.vec('xcur', n)
+        if iface == 'exp':
+            from cuqi.experimental.mcmc import LinearRTO
+            s = LinearRTO(target, initial_point=xcur); s.initialize()
+        else:
+            from cuqi.sampler import LinearRTO
+            s = LinearRTO(target, x0=xcur)
+        M = s.M
+        apply = (lambda v, f: M(v, f)) if callable(M) else (lambda v, f: (M @ v if f == 1 else M.T @ v))
+    except (ValueError, TypeError, NotImplementedError):
+        if order in ('dense,dense', 'sparse,sparse'): raise            # only a MIXTURE of storage types may be refused
+        c.holds('this_mixture_of_storage_types_is_refused', True); return
+    x = c.vec('x', n)
+    spec = A.T @ (y - A @ x) / nv - R1.T @ (R1 @ (x - mu1)) - R2.T @ (R2 @ (x - mu2))
+    c.eq('normal_equations_are_those_of_the_documented_posterior', np.asarray(apply(np.asarray(s.b_tild) - np.asarray(apply(x, 1)), 2)).ravel(), spec, tol=1e-7)
+
+
 def five_tuple(c, m=2, n=2):
     """legacy 5-tuple input form (data, model, L_sqrtprec, P_mean, P_sqrtprec)"""
     from cuqi.sampler import LinearRTO
@@ -293,5 +324,9 @@ def jobs(tier):
                     J.append(Job(f'{tag}.LinearRTO:documented_posterior:{form}_matrix_{param}:sparse_switch={side}', lambda c, i=iface, p=param, sd=side, f=form: rto_documented_posterior(c, i, p, sd, 4, 3, f), 'B',
                                  ['cuqi.distribution._gaussian:get_sqrtprec_from_prec', 'cuqi.distribution._gaussian:get_sqrtprec_from_cov', 'cuqi.distribution._gaussian:get_sqrtprec_from_sqrtcov',
                                   'cuqi.distribution._gaussian:get_sqrtprec_from_sqrtprec'], nnum=4 if q else 20))
+    for iface, tag in (('exp', 'experimental'), ('leg', 'legacy')):
+        for order in ('dense,dense', 'sparse,sparse', 'sparse,dense', 'dense,sparse'):
+            J.append(Job(f'{tag}.LinearRTO:JointGaussianSqrtPrec_prior:{order}', lambda c, i=iface, o=order: rto_joint_sqrtprec_prior(c, i, o), 'B',
+                         ['cuqi.distribution._gaussian:JointGaussianSqrtPrec.sqrtprec', 'cuqi.distribution._gaussian:JointGaussianSqrtPrec.sqrtprecTimesMean'], nnum=3))
     J.append(Job('legacy.LinearRTO:five_tuple_form', five_tuple, 'Pbox', ['cuqi.sampler._rto:LinearRTO.__init__'], extra=_extra, rtol=1e-4))
     return J
